@@ -48,8 +48,14 @@ def prepare_lexers(ctx, grammars, flags=(), ws=None):
             continue
         r = LexRec()
         r.g, r.alpha, r.name, r.dir, r.gocc_out = g, alpha, name, d, out
-        r.rows = gen.parse_transtab(os.path.join(d, "lexer", "transitiontable.go"))
-        r.acts = gen.parse_acttab(os.path.join(d, "lexer", "acttab.go"))
+        try:
+            r.rows = gen.parse_transtab(os.path.join(d, "lexer", "transitiontable.go"))
+            r.acts = gen.parse_acttab(os.path.join(d, "lexer", "acttab.go"))
+        except (ValueError, AssertionError) as e:
+            # the translator does not understand the emitted table: the obligations about it cannot be discharged
+            ctx.add_obligation("R: the emitted lexer tables of %s are in the form the translator reads" % name, False, str(e)[:300])
+            stats["gocc_failed"] += 1
+            continue
         r.table = os.path.join(d, "dfa.tab")
         write_table_file(r.table, r.rows, r.acts)
         ws.add_driver(name, "lexdrv.go.tmpl")
